@@ -47,6 +47,7 @@ func runC04(w *World, r *Report) {
 	c04NoMutation(w, r, "C04/NO-MUTATION", nil)
 	c04MultiDoc(w, r)
 	c04ChildSection(w, r)
+	c04FlagKind(w, r)
 }
 
 func c04FlagOrder(w *World, r *Report) {
@@ -1204,5 +1205,43 @@ func c04FamilyOneLoop(w *World, r *Report, fn *ssa.Function, accAliases map[ssa.
 			}
 		}
 		r.Check(len(in) == 1, "C04/FLAG-ORDER", "family:"+ff.Field+"/one-loop", pos, "everything of the family is merged into the accumulator in one loop", fmt.Sprintf("the %s family is merged into the accumulator in %d separate loops over parts of it: the command-line order between the parts is lost (a later flag no longer wins over an earlier one of the other part)", ff.Field, len(in)))
+	}
+}
+
+// c04FlagKind: the --set family hands each argument to its parser whole (the parsers have their own
+// comma and escape syntax; --set-literal takes everything after '=' literally). pflag's StringSlice flags
+// run the argument through a CSV reader first; only StringArray flags do not.
+func c04FlagKind(w *World, r *Report) {
+	r.Rule("C04/FLAG-KIND", "the --set, --set-string, --set-file, --set-json and --set-literal flags are registered as pflag string-array flags (no comma splitting before the values parser sees the argument)", 5)
+	want := map[string]bool{"Values": true, "StringValues": true, "FileValues": true, "JSONValues": true, "LiteralValues": true}
+	n := 0
+	for _, fn := range w.HelmFuncs() {
+		if !strings.HasSuffix(fnPkgPath(fn), "/pkg/cmd") || strings.HasSuffix(w.FileOf(fn), "_test.go") {
+			continue
+		}
+		for _, c := range callInstrs(fn) {
+			f, _ := calleeOf(c.Common())
+			if f == nil || !strings.HasSuffix(fnPkgPath(f), "spf13/pflag") || !strings.Contains(f.Name(), "Var") {
+				continue
+			}
+			args := c.Common().Args
+			if len(args) < 3 {
+				continue
+			}
+			fa, ok := args[1].(*ssa.FieldAddr)
+			if !ok {
+				continue
+			}
+			p, t, fld := fieldNameOf(fa)
+			if p != valuesPkg || t != "Options" || !want[fld] {
+				continue
+			}
+			n++
+			name, _ := constString(args[2])
+			r.Check(strings.HasPrefix(f.Name(), "StringArrayVar"), "C04/FLAG-KIND", "flag:"+fld, w.InstrPos(c), "--"+name+" is a string-array flag", "--"+name+" is registered with "+f.Name()+": pflag splits the argument at commas before the values parser sees it (a literal or a list value is torn apart, and the pieces are applied as separate flags)")
+		}
+	}
+	if n == 0 {
+		r.Unk("C04/FLAG-KIND", "no-site", "-", "no registration of the --set flags found in pkg/cmd")
 	}
 }
